@@ -280,6 +280,10 @@ func (s *scen) run() core.Result {
 		if cap(buf) != c {
 			r.Count("dointo_buffer_grown", 1)
 		}
+		if e2 == nil && poolpoison.Aliased(buf) {
+			r.Class = "violation"
+			r.Add(fmt.Sprintf("t2j.DoInto|%s|result-aliases-pooled-buffer", s.op), "trigger %s, options %s, capacity %d: the %d bytes DoInto left in the caller's buffer change when the pooled buffers are overwritten\nmsg %s", s.trigger, s.optName, c, len(buf), cliphex(msg, 200))
+		}
 		if oc, det := s.judge(buf, e2, gb); oc != "" {
 			r.Class = "violation"
 			r.Add(fmt.Sprintf("t2j.DoInto|%s|capacity-dependent:%s", s.op, oc), "trigger %s, options %s, initial capacity %d (2*len(src)%+d)\nmsg %s\n%s", s.trigger, s.optName, c, k, cliphex(msg, 200), det)
